@@ -103,12 +103,16 @@ PROPS['C11'] = dict(
 )
 
 PROPS['C08'] = dict(
-    units=[dict(target=T('h_grids', parts=2), quick=dict(scale=4.0), thorough=dict(scale=5.0, shards=16))],
+    units=[dict(target=T('h_grids', parts=2), quick=dict(scale=4.0), thorough=dict(scale=5.0, shards=16)),
+           dict(target=T('h_hist', parts=4), quick=dict(args=['--focus', 'C08'], scale=1.0, shards=4), thorough=dict(args=['--focus', 'C08', '--max-size', '200'], scale=4.0, shards=16)),
+           '@FUZZ08@'],
     rule=('base grid g and a mutation g\' from {one point moved, extra point in front / at the back / inside, first / last point dropped, point moved OUTSIDE the hull of both windows (grids agree where the supports meet), equal grid in a distinct object} '
           'x constructed placement class incl. interval-free arguments x orders (0..2)^2 x 16 entry points: a+b, a-b, a*b, a+=b, a-=b, linearCombination (foreign spline at a generated position of 2..5, both overloads), BilinearForm identity / with operators / operator(), '
           'integrate<3> (double), SplineOperator{v}*s, three compound expressions containing SplineOperator{v}, LinearForm{SplineOperator}, BilinearForm{SplineOperator} with operands on one grid and on different grids, BSplineGenerator(knots, g\'). '
           'Oracle: BSplineException with DIFFERING_GRIDS (generator: any code), nothing returned, snapshots of all arguments and of the in-place target unchanged; for equal grids in distinct objects every result equals the shared-instance result. '
-          'Non-trivial: mutation outside the hull, equal-distinct object, interval-free argument, or in-place entry point. Per-entry and per-mutation counters in per_subcheck.classes.'),
+          'Non-trivial: mutation outside the hull, equal-distinct object, interval-free argument, or in-place entry point. Per-entry and per-mutation counters in per_subcheck.classes. '
+          'Second and third unit: the history interpreter of C09/C10/C14 (rapidcheck, T=Q; libFuzzer, T=double) with the C08 oracle - in EVERY step of a generated call history each multi-spline / multi-support call (+ - * += -= linearCombination, forms, spline-factor operators, union, intersection) whose arguments live on logically different grids must throw with the differing-grids code, whatever the objects went through before; '
+          'a composite opcode (P_REGRID) first combines a working object in both operand positions with a partner on an EQUAL grid held in a DISTINCT object (must succeed), then re-seats the working object onto another grid through one of five assignment / move / swap paths (or not at all), then repeats the combination in both positions: refused iff the grids now differ, arguments unchanged; same on Support level incl. hasSameGrid. Non-trivial there: at least one call on logically different grids.'),
     technique='rapidcheck generation of grid-pair mutations x entry points; oracle = exception type/code, operand snapshots, shared-instance differential',
     level_text='Generated-input search over every multi-spline entry point and every way two grids can differ; both halves (refuse different, accept equal-in-distinct-object) are checked. Sampling, not proof.',
     level_note='For a BilinearForm with a spline factor whose operands share no interval neither a throw nor a value is demanded (guard unreachable, DESIGN 6.2). Q and double.',
@@ -156,7 +160,7 @@ def fuzz_unit(focus_mask, quick_runs, thorough_runs, thorough_jobs=16):
             k, cmd, e, cnt, art = p
             return p, env['run_proc'](cmd, timeout=6 * 3600, env=e)
         tot = dict(execs=0, steps=0, nontrivial=0, with_moves=0, with_throws=0, ops={})
-        ntkey = {1: 'nontrivial_c09', 2: 'nontrivial_c10', 4: 'nontrivial_c14'}[focus_mask]
+        ntkey = {1: 'nontrivial_c09', 2: 'nontrivial_c10', 4: 'nontrivial_c14', 32: 'nontrivial_c08'}[focus_mask]
         with ThreadPoolExecutor(max_workers=jobs) as ex:
             for (k, cmd, e, cnt, art), (rc, so, se, wall) in ex.map(go, procs):
                 if _os.path.exists(cnt):
@@ -193,6 +197,8 @@ def fuzz_unit(focus_mask, quick_runs, thorough_runs, thorough_jobs=16):
         print(se[-3000:])
         return rc != 0
     return dict(custom=run, replay=replay, prebuild=[FUZZ_T])
+
+PROPS['C08']['units'][2] = fuzz_unit(32, 40000, 300000)
 
 HIST_RULE = ('histories = sequences of opcodes (51 kinds: every constructor/factory with valid and deliberately invalid arguments, copy, move, copy-/move-assignment, self-assignment, self-move-assignment, cross-order assignment, '
              'scalar * / *= /=, unary minus, + - * across orders 0..3, += -=, linearCombination, primitive / compound / spline-valued operator application, linear and bilinear forms, evaluation, union/intersection, checked accessors with index classes around 2^32, 2^63, SIZE_MAX, '
